@@ -220,8 +220,13 @@ where
         };
         self.start_tree.push(start_node);
 
-        let mut rng = rand::rng();
-        let goal_state = pd.goal.sample_goal(&mut rng).unwrap();
+        // Use the planner's own (seeded) generator when it has one, so that the goal-tree root
+        // is reproducible for a given seed.
+        let goal_state = match self.rng.as_mut() {
+            Some(rng) => pd.goal.sample_goal(rng.as_mut()),
+            None => pd.goal.sample_goal(&mut rand::rng()),
+        }
+        .unwrap();
         let goal_node = Node {
             state: goal_state,
             parent_index: None,
